@@ -406,7 +406,7 @@ PROPS["C20"] = {
 PROPS["C10"] = {
     "confirm_reruns": True,
     "id": "C10",
-    "lean_modules": ["JT.Props.C10", "JT.Props.C03", "JT.Props.C05", "JT.Props.C02", "JT.Props.C10Src", "JT.Props.C04Src"],
+    "lean_modules": ["JT.Props.C10", "JT.Props.C03", "JT.Props.C05", "JT.Props.C02", "JT.Props.C10Src"],
     "extractors": ["golean"],
     "functional_ops": ["hostile"],
     "rule": ("real server subprocesses: the attachment server (five dialects, default file handler, scratch cwd), the JT808 server with default handlers and with README-style handlers that Parse+String every body. "
